@@ -1,4 +1,5 @@
 mod chain;
+mod config;
 mod monitors;
 mod report;
 mod rng;
@@ -35,6 +36,10 @@ fn main() {
         "txindex" => {
             txindex::run(seed, thorough, &mut rep);
             rep.finish("every connect/disconnect sequence of the given length over a small key universe (keys unique in the active chain, re-appearing only in replacement blocks) for N in 1..3, plus random sequences with reorgs at N=6 and N=100; a case is non-trivial when it has a disconnect and a block with keys; distinct = distinct op sequences", true);
+        }
+        "config" => {
+            config::run(seed, thorough, &mut rep);
+            rep.finish("every Config field x (file absent/present) x (command line absent/given), all 8 credential combinations x 8 placements (file/command line), 13 network names x 3 ports x 2 placements: enumerated completely; plus random joint draws over all fields", true);
         }
         "slots" => {
             slots::run(seed, thorough, &mut rep);
